@@ -811,7 +811,7 @@ def run(tier, seed):
 
     cases = witness_cases() + corpus()
     n_fixed = len(cases)
-    while len(cases) < (6000 if thorough else 500):
+    while len(cases) < (4500 if thorough else 500):
         cases.append(gen_case(r))
     results = []
     step = 1500
